@@ -49,6 +49,17 @@ main(int argc, char *argv[])
 	ppinit();
 	if (pponly) {
 		ppflags |= PPNEWLINE;
+#ifdef CPROC_VERIF
+		/* verification hook: one token per line (location, kind, space, hide, spelling) */
+		if (getenv("CPROC_VERIF_TOKDUMP")) {
+			while (tok.kind != TEOF) {
+				printf("%s:%zu:%zu\t%d\t%d\t%d\t%s\n", tok.loc.file, tok.loc.line, tok.loc.col,
+					(int)tok.kind, (int)tok.space, (int)tok.hide,
+					tok.lit ? tok.lit : tokstr[tok.kind] ? tokstr[tok.kind] : "");
+				next();
+			}
+		}
+#endif
 		while (tok.kind != TEOF) {
 			tokenprint(&tok);
 			next();
